@@ -3,10 +3,10 @@
 
 def classify(case):
     """the recorded finding: the installed desktop file NAME is copied unquoted into Exec=env BAMF_DESKTOP_FILE_HINT=<name> ...;
-    only names containing a space or tab are keyed."""
+    only names containing a space, tab or line break are keyed."""
     i = case.get("input") or {}
     f = i.get("file") or ""
-    if " " in f or "\t" in f:
+    if " " in f or "\t" in f or "\n" in f:
         return "desktop-file-name-with-whitespace"
     return None
 
